@@ -5,8 +5,20 @@ passes, demo fails with / passes without), then runs ./check PID --tier quick ag
 applied and reverts /repo.  Stores everything under /verif/seeded/<seed-name>/."""
 import json, os, re, shutil, subprocess, sys, time
 import fcntl
-_lock = open("/tmp/vbuild-seed.lock", "w")
-fcntl.flock(_lock, fcntl.LOCK_EX)          # one seed trial at a time: they share the isolated build directory
+# at most two seed trials at a time (each has its own isolated build directory)
+while True:
+    got = None
+    for slot in ("a", "b"):
+        _lock = open(f"/tmp/vbuild-seed-{slot}.lock", "w")
+        try:
+            fcntl.flock(_lock, fcntl.LOCK_EX | fcntl.LOCK_NB)
+            got = slot
+            break
+        except OSError:
+            _lock.close()
+    if got:
+        break
+    time.sleep(5)
 name, pid = sys.argv[1], sys.argv[2]
 skip_tests = "--skip-tests" in sys.argv
 src = f"/tmp/seeded-out/{name}"
@@ -51,7 +63,7 @@ if res["applies"]:
     res["demo_tail_with"] = out_with[-300:]
 # run the check against the patched scratch worktree in isolated mode (VERIF_REPO / VERIF_BUILD): /repo itself, the main build
 # directory and the evidence files of the real tree are not touched, so this can run next to other checks
-bdir = "/tmp/vbuild-seed"
+bdir = f"/tmp/vbuild-seed-{got}"
 try:
     t0 = time.time()
     r = sh(f"cd /verif && VERIF_REPO={wt} VERIF_BUILD={bdir} timeout 3000 ./check {pid} --tier quick", timeout=3100)
